@@ -1,7 +1,9 @@
 """C03 — derivatives tracked by name whatever the layout.  Proof: Props/C03.v.
 Correspondence: EXHAUSTIVE over ordered variable lists on a small alphabet for both operands x 5 binary operators
-and == x Dual/Dual2 x shared/unshared storage, random coefficients incl. zeros (`rlharness dual` op 3)."""
+and == x Dual/Dual2 x shared/unshared storage, random coefficients incl. zeros (`rlharness dual` op 3); the re-listing entry
+points called directly: to_new_vars(target, None) (separate and own Arc, ptr_eq), try_new_from, new_from, to_union_vars(other, None) (ops 22-25)."""
 import itertools
+import random
 from common import *  # noqa
 import dualgen as dg
 
@@ -84,6 +86,103 @@ def gen_cases(ctx):
     return cases
 
 
+def rel_of(xs, ys):
+    return "equal lists" if xs == ys else "same set, other order" if set(xs) == set(ys) else \
+        "superset" if set(xs) > set(ys) else "subset" if set(xs) < set(ys) else \
+        "disjoint" if not (set(xs) & set(ys)) else "overlapping"
+
+
+def dedup(l):
+    out = []
+    for v in l:
+        if v not in out:
+            out.append(v)
+    return out
+
+
+def gen_relist_cases(ctx):
+    """the PUBLIC re-listing entry points called DIRECTLY (`rlharness dual` ops 22-24): x.to_new_vars(target, None) with the
+    target given through a separate Arc (mode 0: equal / permuted / subset / superset / disjoint / overlapping lists) and through
+    x's own Arc (mode 1), ptr_eq of the result; Dual(2)::try_new_from / new_from on another number's variables (that number of
+    either order), incl. the length-mismatch errors.  Returns (tag, encoding, description, schema, label)."""
+    rng = random.Random(ctx.seed * 7919 + 3)
+    th = ctx.tier == "thorough"
+    L = layouts(["x", "y", "z", "w"] if th else ["x", "y", "z"])
+    DUP = [["x", "x"], ["x", "y", "x"], ["z", "z", "y"], ["y", "x", "x", "y"]]
+    out = []
+    for kind in (1, 2):
+        kn = "Dual" if kind == 1 else "Dual2"
+        sch = ["dual" if kind == 1 else "dual2", "int", "int"]
+        for la in L:
+            for lt in L + DUP[:2]:
+                x = mk(rng, kind, la)
+                out.append(("to_new_vars", [24, kind, 0] + dg.enc_number(x)[1:] + dg.enc_names(lt),
+                            "%s(%s).to_new_vars([%s] through a separate Arc, None)" % (kn, ",".join(la), ",".join(lt)), sch,
+                            "separate Arc, " + rel_of(la, dedup(lt))))
+            x = mk(rng, kind, la)
+            out.append(("to_new_vars", [24, kind, 1] + dg.enc_number(x)[1:] + dg.enc_names(la),
+                        "%s(%s).to_new_vars(its own Arc, None)" % (kn, ",".join(la)), sch, "same Arc"))
+        sch2 = ["dual" if kind == 1 else "dual2"] * 2 + ["int"]
+        for la in L:
+            for lb in L:
+                x, y = mk(rng, kind, la), mk(rng, kind, lb)
+                out.append(("to_union_vars", [25, kind, 0] + dg.enc_number(x)[1:] + dg.enc_number(y)[1:],
+                            "%s(%s).to_union_vars(%s(%s), None)" % (kn, ",".join(la), kn, ",".join(lb)), sch2,
+                            "separate Arcs, " + rel_of(la, lb)))
+                if la == lb:
+                    x, y = mk(rng, kind, la), mk(rng, kind, lb)
+                    out.append(("to_union_vars", [25, kind, 1] + dg.enc_number(x)[1:] + dg.enc_number(y)[1:],
+                                "%s(%s).to_union_vars(%s on the same Arc, None)" % (kn, ",".join(la), kn), sch2, "same Arc"))
+        sch1 = ["dual" if kind == 1 else "dual2"]
+        for lo in L + DUP[:1]:
+            for lv in L + DUP:
+                okind = rng.choice([1, 2])
+                n = len(dedup(lv))
+                variants = ["given"]
+                r = rng.random()
+                if r < 0.25:
+                    variants.append("default")
+                elif r < 0.5:
+                    variants.append("short" if n else "long")
+                elif r < 0.6:
+                    variants.append("long")
+                if kind == 2 and rng.random() < 0.4:
+                    variants.append(rng.choice(["dd given", "dd wrong"]))
+                for var in variants:
+                    re_ = float(rng.choice([1, -1, 2, -2.5, 3, 0.5, 0.0, 7]))
+                    du = [rnd_coef(rng) or 1.0 for _ in range(n)]
+                    if var == "default":
+                        du = []
+                    elif var == "short":
+                        du = du[:-1] if n > 1 else [1.0, 2.0]
+                    elif var == "long":
+                        du = du + [1.5]
+                    e = [22, kind, okind] + dg.enc_names(lo) + dg.enc_f(re_) + dg.enc_names(lv) + [len(du)] + [f2b(v) for v in du]
+                    if kind == 2:
+                        dd = []
+                        if var == "dd given":
+                            dd = [rnd_coef(rng) for _ in range(n * n)]
+                        elif var == "dd wrong":
+                            dd = [1.0] * (n * n + 1)
+                        e += [len(dd)] + [f2b(v) for v in dd]
+                    lab = "derivatives " + ("given" if var in ("given", "dd given", "dd wrong") else
+                                            "defaulted to ones" if var == "default" else "of the wrong length")
+                    if var == "dd wrong":
+                        lab = "second derivatives of the wrong length"
+                    if var == "short" and n <= 1 and du == [1.0, 2.0]:
+                        lab = "derivatives of the wrong length"
+                    out.append(("try_new_from", e, "%s::try_new_from(other = %s(%s), %r, [%s], %d derivative values%s)" % (
+                        kn, "Dual" if okind == 1 else "Dual2", ",".join(lo), re_, ",".join(lv), len(du),
+                        (", %d second-order values" % len(dd)) if kind == 2 else ""), sch1,
+                        lab + "; vars vs other: " + rel_of(dedup(lv), dedup(lo))))
+                okind = rng.choice([1, 2])
+                re_ = float(rng.choice([1, -1, 2, -2.5, 3, 0.5, 0.0, 7]))
+                out.append(("new_from", [23, kind, okind] + dg.enc_names(lo) + dg.enc_f(re_) + dg.enc_names(lv),
+                            "%s::new_from(other = %s(%s), %r, [%s])" % (kn, "Dual" if okind == 1 else "Dual2", ",".join(lo), re_, ",".join(lv)),
+                            sch1, "vars vs other: " + rel_of(dedup(lv), dedup(lo))))
+    return out
+
+
 def schema_for(kind, oc):
     if oc >= 5:
         return ["int"]
@@ -95,11 +194,16 @@ def run(ctx):
                 "operand (permutations, subsets, supersets, disjoint, overlapping, empty) x {+,-,*,/,%,==} x {Dual, Dual2} x shared / "
                 "unshared Arc when the lists are equal; coefficients random small dyadics incl. zeros; == cases include operands equal "
                 "by name on different layouts. Observables: the set of vars() (duplicate-free), real, and the dual / dual2 arrays BY NAME (stored order is not part of the property and is canonicalised), bool. Non-trivial = operands "
-                "with different variable lists; distinct by encoded case.")
+                "with different variable lists; distinct by encoded case. PLUS the re-listing entry points called directly, exhaustively over "
+                "the same 16 x 16 (+ duplicate-carrying) lists: x.to_new_vars(target, None) through a separate Arc (equal / permuted / "
+                "subset / superset / disjoint / overlapping) and through x's own Arc, with ptr_eq of result and source against the target; "
+                "x.to_union_vars(y, None) on every pair of lists (and on a shared Arc); Dual(2)::try_new_from / new_from on the variables of another number of either order, derivatives given / defaulted / of "
+                "the wrong length (error returned), second-order array given / of the wrong length.")
     ctx.trusted = [
         "Coq 8.16.1 kernel; theorems over R (stdlib real-number axioms + constructive_indefinite_description through the NumR instance)",
         "Arc::ptr_eq modelled by the boolean p with side condition p = true -> equal lists; IndexSet as duplicate-free list",
-        "hand-written model Model/Dual.v tied to rust/dual/dual.rs + dual_ops by this run (harness/src/dual.rs op 3)",
+        "hand-written model Model/Dual.v tied to rust/dual/dual.rs + dual_ops by this run (harness/src/dual.rs ops 3, 22, 23, 24, 25)",
+        "ptr_eq after to_new_vars is fixed by construction in the model (the result holds the target Arc; the source shares it iff p)",
     ]
     ctx.assumptions = ["operands built with try_new (well-formed: duplicate-free names, matching array shapes)"]
     if not proof_stage(ctx, ["theories/Run/RunDual.vo"]):
@@ -130,6 +234,28 @@ def run(ctx):
                 {"case": e, "kind": kind, "operator": OPN[oc], "shared": p, "lhs": list(x), "rhs": list(y),
                  "implementation": dg.plain(da), "model": dg.plain(db),
                  "harness_cmd": "echo 'c %s' | harness/target/release/rlharness dual" % " ".join(str(t) for t in e)})
+    # ---- the re-listing entry points called directly
+    extra = gen_relist_cases(ctx)
+    xenc = [c[1] for c in extra]
+    ximpl = run_harness("dual", ["c " + " ".join(str(x) for x in c) for c in xenc])
+    xmodel = coq_eval("Run.RunDual", "runDual", xenc, ctx.work, shard=max(50, len(xenc) // (NCPU * 3) + 1), tag="c03x")
+    for (tag, e, desc, sch, lab), a, b in zip(extra, ximpl, xmodel):
+        ctx.evaluations += 1
+        ctx.count("%s: %s" % (tag, lab))
+        ctx.count("%s: cases" % tag)
+        ctx.nontriv(tuple(e))
+        ok, da, db = dg.agree(a, b, sch, rtol=1e-9)
+        if da[0] == "err":
+            ctx.count("%s: returned an error (length mismatch)" % tag)
+        if tag == "to_new_vars" and da[0] == "ok":
+            ctx.count("to_new_vars: ptr_eq(result, target) = %d, ptr_eq(self, target) = %d" % (da[1][1], da[1][2]))
+        if not ok:
+            ctx.violation("the implementation disagrees with the proved model on %s: implementation %s, model %s" % (
+                desc, str(dg.plain(da))[:300], str(dg.plain(db))[:300]),
+                {"case": e, "entry": tag, "what_op": desc, "schema": sch, "implementation": dg.plain(da), "model": dg.plain(db),
+                 "harness_cmd": "echo 'c %s' | harness/target/release/rlharness dual" % " ".join(str(t) for t in e)})
+    for c in extra[::max(1, len(extra) // 4)][:4]:
+        ctx.sample(c[2])
     for c in cases[100:104]:
         ctx.sample(describe(*c))
     ctx.exhaustive = True
@@ -144,5 +270,5 @@ def replay(ctx, rp):
     b = coq_eval("Run.RunDual", "runDual", [c], ctx.work)[0]
     print("implementation", a, "\nmodel", b)
     ctx.cleanup()
-    ok, _, _ = dg.agree(a, b, schema_for(c[1], c[2]), rtol=1e-9)
+    ok, _, _ = dg.agree(a, b, rp.get("schema") or schema_for(c[1], c[2]), rtol=1e-9)
     return 0 if ok else 1
